@@ -322,7 +322,7 @@ def run_atheris(chunk, st):
         env = dict(os.environ)
         env['PYTHONPATH'] = VERIF + os.pathsep + deps
         env['DXV_FUZZ_OUT'] = tmp
-        runs = int(60000 * float(os.environ.get('VERIF_BUDGET_SCALE', '1')))
+        runs = int(1200000 * float(os.environ.get('VERIF_BUDGET_SCALE', '1')))
         cmd = [sys.executable, '-m', 'dxv.fuzz_c08', corpus,
                '-runs=%d' % runs, '-seed=%d' % (seed * 100 + shard + 1),
                '-max_len=2048', '-dict=' + os.path.join(VERIF, 'dxv',
@@ -380,5 +380,5 @@ def checks():
                  'units, non-trivial = units kept in the corpus (new '
                  'coverage)',
             bound={'quick': 'not run in the quick tier',
-                   'thorough': '16 shards x 60000 executions'}),
+                   'thorough': '16 shards x 1200000 executions'}),
     ]
